@@ -18,7 +18,7 @@ INT_RANGES = {
     "felt252": (0, P - 1), "u8": (0, 2**8 - 1), "u16": (0, 2**16 - 1), "u32": (0, 2**32 - 1),
     "u64": (0, 2**64 - 1), "u128": (0, 2**128 - 1), "i8": (-2**7, 2**7 - 1),
     "i16": (-2**15, 2**15 - 1), "i32": (-2**31, 2**31 - 1), "i64": (-2**63, 2**63 - 1),
-    "i128": (-2**127, 2**127 - 1), "bytes31": (0, 2**248 - 1), "GasBuiltin": (0, 2**128 - 1),
+    "i128": (-2**127, 2**127 - 1), "bytes31": (0, 2**248 - 1), "GasBuiltin": (0, 2**62),
     "ClassHash": (0, P - 1), "ContractAddress": (0, P - 1), "StorageAddress": (0, P - 1),
     "StorageBaseAddress": (0, P - 1), "GasReserve": (0, 2**128 - 1),
 }
@@ -114,6 +114,8 @@ class Types:
                 eng.setb(p, cell, 0, P - 1)
             else:
                 cell = s
+            if g == "GasBuiltin":
+                return [cell], ("int", s), ("gas",)
             return [cell], ("int", s), ("felt", cell)
         if g in BUILTIN_PTR:
             ptr = Ptr(BUILTIN_PTR[g], 0)
